@@ -53,6 +53,7 @@ var props = []*core.Property{
 	prop("C13", "other", "x", nil, ruleDropLastLine, ruleInspectedGuard, ruleLineThresholds, ruleTruncTable, ruleSnapshot),
 	prop("C12", "other", "x", nil, ruleSnifferMap, ruleDecoderTypestate, ruleLowerCase, ruleHTMLOrder),
 	prop("C06", "other", "x", nil, ruleAtomics, ruleLockset, ruleWriteOnce, ruleSharedAppend, rulePkgState, ruleSnapshot, ruleFreshResults),
+	prop("C17", "other", "x", nil, ruleMonotone, ruleTextNode, ruleTreeWF),
 	prop("C18", "other", "x", nil, ruleTar),
 	prop("C19", "other", "x", nil, ruleZipMarkers, ruleZipSignatures, ruleZipWalk),
 	prop("C16", "proof", "x", nil, ruleSCC, ruleCap, ruleFailProp),
